@@ -68,6 +68,17 @@ template<class S,class Tg> void c10_write_assign(hx::Rec<S>& R){ COMMON SETUP
   Vt*=S(2.0); bt.expect("t*=2",(t.coeffs()*S(2.0)).eval(),GZ); bt.put(t.coeffs(),GZ);
   by.untouched("after"); bu.untouched("after");
 }
+// assignment between two MUTABLE views (copy and move): the destination's buffer receives the coefficients, the source buffer
+// is untouched, and later writes through the destination still land in the destination's own buffer
+template<class S,class Tg> void c10_write_viewview(hx::Rec<S>& R){ COMMON SETUP
+  Eigen::Map<G> VY(by.v.data()+GZ); Eigen::Map<T> Vu(bu.v.data()+GZ);
+  VX=VY; bx.expect("view=view",Y.coeffs(),GZ); by.untouched("view=view.src"); bx.put(X.coeffs(),GZ);
+  VX=std::move(VY); bx.expect("view=move(view)",Y.coeffs(),GZ); by.untouched("view=move(view).src");
+  VX.setIdentity(); bx.expect("after_move.setIdentity",G::Identity().coeffs(),GZ); by.untouched("after_move.src"); bx.put(X.coeffs(),GZ);
+  Vt=Vu; bt.expect("t.view=view",u.coeffs(),GZ); bu.untouched("t.view=view.src"); bt.put(t.coeffs(),GZ);
+  Vt=std::move(Vu); bt.expect("t.view=move(view)",u.coeffs(),GZ); bu.untouched("t.view=move(view).src");
+  Vt.setZero(); bt.expect("t.after_move.setZero",typename T::DataType(T::DataType::Zero()),GZ); bu.untouched("t.after_move.src");
+}
 template<class S,class Tg> void c10_write_identity(hx::Rec<S>& R){ COMMON SETUP
   VX.setIdentity(); bx.expect("setIdentity",G::Identity().coeffs(),GZ);
   by.untouched("after"); bt.untouched("after");
@@ -100,6 +111,7 @@ ENTRY_T(c10_read_plusminus, TAG)
 ENTRY_T(c10_read_minus, TAG)
 ENTRY_T(c10_read_tangent, TAG)
 ENTRY_T(c10_write_assign, TAG)
+ENTRY_T(c10_write_viewview, TAG)
 ENTRY_T(c10_write_identity, TAG)
 ENTRY_T(c10_write_plus, TAG)
 ENTRY_T(c10_write_times, TAG)
